@@ -126,6 +126,14 @@ def gen_program(rnd, pid, size=None, roots=1, generic=True, args=True, ensure_co
         b = {"mods": path, "raw": raw, "name": strip_raw(raw), **loc(), "kind": "plain",
              "opts": rand_opts(rnd), "cost": rnd.choice([100, 500, 1000, 3000]),
              "cost_var": rnd.choice([0, 3, 17, 250])}
+        # allocator activity inside the benchmarked function (AllocProfiler is the process allocator)
+        if rnd.random() < 0.3:
+            b_alloc = {"alloc_blocks": [rnd.choice([1, 8, 64, 1000, 4096]) for _ in range(rnd.randint(1, 4))]}
+            if rnd.random() < 0.4:
+                b_alloc["free_input"] = rnd.choice([16, 1000, 100000])
+        else:
+            b_alloc = {}
+        b.update(b_alloc)
         if rnd.random() < 0.2:
             custom = rnd.choice(["Custom", "my bench", "α", "n1"])
             if custom not in used[tuple(path)]:
@@ -588,6 +596,7 @@ def run_program(prog, cfg, name, timeout=120):
         if e["ev"] == "leaf_stats" and evs and evs[-1]["ev"] == "invoke":
             evs[-1]["has_stats"] = True
             evs[-1]["stats"] = e["stats"]
+            evs[-1]["alloc_text"] = e.get("alloc_text", [])
             continue
         evs.append(e)
     has_columns = cfg["action"] == "bench"
